@@ -340,6 +340,20 @@ def run_hypothesis(sub, tier, n, seed_value, known, rec, deadline,
                 case, v = state["case"], state["v"]
             found.append(Found(v, case, reproducible=False))
             excluded.add(state["target"])
+        except HarnessError:
+            raise
+        except Exception as internal:
+            # an error that is no Violation while a Violation had already been observed in this
+            # attempt: the shrinker of Hypothesis failed (6.168 has an IntervalSet.index bug when
+            # it re-orders text choices) - report the smallest failing case recorded so far
+            if state["first"] is None:
+                raise
+            case, v = state["first"]
+            if state["v"] is not None:
+                case, v = state["case"], state["v"]
+            rec.notes.append("shrinking of %s stopped early: %s: %s" % (state["target"], type(internal).__name__, str(internal)[:120]))
+            found.append(Found(v, case))
+            excluded.add(state["target"])
         else:
             break
         attempt += 1
